@@ -35,6 +35,21 @@ Theorem C01_prims_wf : forallb wf_ty (filter (fun t => negb (is_ticket t)) all_p
                        forallb wf_ty all_records = true.
 Proof. split; vm_compute; reflexivity. Qed.
 
+(* The hand-optimised codecs of FileData / Attribute / DirectoryData (serialize, serialize_into,
+   deserialize overrides; translated from their bodies into the field sequence they read / write) are the
+   metadata-driven codec: same fields, same order, same wire types -- hence the same enc / dec. *)
+Theorem C01_fast_codecs_generic : map (fun c => snd (fst c)) fast_codecs = map snd fast_codecs.
+Proof. vm_compute. reflexivity. Qed.
+
+Theorem C01_fast_codecs_same_codec : forall lbl fast gen, In (lbl, fast, gen) fast_codecs ->
+  forall v bs, enc (TRec (map snd fast)) v = enc (TRec (map snd gen)) v /\
+               dec (TRec (map snd fast)) bs = dec (TRec (map snd gen)) bs.
+Proof.
+  intros lbl fast gen I v bs.
+  pose proof (proj1 (@map_ext_in_iff _ _ (fun c : String.string * list (String.string * ty) * list (String.string * ty) => snd (fst c)) (fun c => snd c) fast_codecs) C01_fast_codecs_generic _ I) as E. cbn [fst snd] in E.
+  rewrite E. split; reflexivity.
+Qed.
+
 (* --- schema table of the current source is well formed (finite: vm_compute) --- *)
 Theorem C01_schemas_wf : forallb wf_schema all_schemas = true.
 Proof. exact schemas_wf. Qed.
